@@ -76,7 +76,7 @@ def encodable(table, dlm, encoding):
         dlm.encode('latin-1')
         for rec in table:
             for f in rec:
-                if f is not None:
+                if isinstance(f, str):
                     f.encode('latin-1')
         return True
     except UnicodeEncodeError:
@@ -94,8 +94,10 @@ def check_table(ns, res, table, policy, dlm, encoding, line_sep, tag):
     if not encodable(table, dlm, encoding):
         return
     res.evaluations += 1
-    has_none = any(f is None for rec in table for f in rec)
-    str_table = [['' if f is None else f for f in rec] for rec in table]
+    def holds_none(v):
+        return v is None or (isinstance(v, list) and any(holds_none(x) for x in v))
+    has_none = any(holds_none(f) for rec in table for f in rec)
+    str_table = [['' if not isinstance(f, str) else f for f in rec] for rec in table]
     case = {'table': table, 'policy': policy, 'dlm': dlm, 'encoding': encoding, 'line_sep': line_sep, 'engine': 'py'}
     payload, wwarn, werr = write_real(ns, table, dlm, policy, encoding, line_sep)
     if policy == 'monocolumn' and any(len(r) != 1 for r in table):
@@ -169,9 +171,14 @@ def random_table(rng, dlm, latin_only):
     for _ in range(nrec):
         w = ncol if rng.random() < 0.85 else rng.randrange(1, 5)
         table.append([''.join(rng.choice(alpha) for _ in range(rng.randrange(0, 7))) for _ in range(w)])
-    if rng.random() < 0.12:
+    r0 = rng.random()
+    if r0 < 0.12:
         r = rng.randrange(len(table))
         table[r][rng.randrange(len(table[r]))] = None
+    elif r0 < 0.18:
+        # a list-valued cell (what ARRAY_AGG / a list literal produce) holding a None: the writer joins it with the sub-array delimiter
+        r = rng.randrange(len(table))
+        table[r][rng.randrange(len(table[r]))] = ['x', None, 'y'] if rng.random() < 0.7 else [[None]]
     return table
 
 
@@ -294,7 +301,7 @@ def run_js(res, spec):
             for _ in range(40):
                 tabs.append(random_table(rng, dlm, False))
             for t in tabs:
-                if any(f is None for r in t for f in r):
+                if any(not isinstance(f, str) for r in t for f in r):
                     continue
                 for enc in ('utf-8', 'binary'):
                     if enc == 'binary' and not encodable(t, dlm, 'latin-1'):
